@@ -9,6 +9,7 @@ import SmppVerif.Model.Time
 import SmppVerif.Model.Receipt
 import SmppVerif.Model.Split
 import SmppVerif.Model.Policy
+import SmppVerif.Model.DriverCorr
 
 namespace SmppVerif.Driver
 open SmppVerif SmppVerif.Wire
@@ -185,16 +186,30 @@ def step (line : String) : String :=
     | _, _, _, _ => "bad-op"
   | _ => "bad-op"
 
-partial def loop (h : IO.FS.Stream) (out : IO.FS.Stream) : IO Unit := do
+/-- state carried across lines (tier 2 / tier 3 models) -/
+structure DState where
+  corr : Corr.CState := { ttlResp := 0, ttlDeliv := 0 }
+
+def stepS (st : DState) (line : String) : DState × String :=
+  let ws := (line.trimAscii.toString.splitOn " ").filter (· ≠ "")
+  match DriverCorr.step st.corr ws with
+  | some (c, out) => ({ st with corr := c }, out)
+  | none => (st, step line)
+
+partial def loop (h : IO.FS.Stream) (out : IO.FS.Stream) (st : DState) : IO Unit := do
   let line ← h.getLine
   if line.isEmpty then return ()
-  if line.startsWith "#" then out.putStr line
-  else out.putStrLn (step line)
-  loop h out
+  if line.startsWith "#" then
+    out.putStr line
+    loop h out st
+  else
+    let (st', o) := stepS st line
+    out.putStrLn o
+    loop h out st'
 
 def main : IO Unit := do
   let stdin ← IO.getStdin
   let stdout ← IO.getStdout
-  loop stdin stdout
+  loop stdin stdout {}
 
 end SmppVerif.Driver
